@@ -520,6 +520,7 @@ def model_line(case, root, before):
         res = []
         if dirrel is None:
             return res
+        res += [(b".", "dn"), (b"..", "dn")]        # real directory entries: fopen("..", "w") fails with EISDIR
         pre = dirrel + b"/"
         for p, v in sorted(before.items()):
             if p.startswith(pre) and b"/" not in p[len(pre):]:
